@@ -22,10 +22,13 @@ from vlib.shrink import ddmin
 META = {
     'level_text': 'Theorems for every program of state/cleanup functions (arbitrary functions of the history), every '
                   'sequence of cycle/start/stop and every placement of concurrent requests at the reads of next_task: '
-                  'cycle_calls_bounded, cycle_never_raises, init_flag_exact, cleanup_exactly_once, cleanup_not_interrupted, '
-                  'stop_makes_inactive, last_start_wins, busy_until_finished (see design_notes/C14.md for which are full and '
-                  'which partial).  The model is tied to lib/statemachine.py and states.py by an exhaustive + random '
-                  'correspondence run on the real classes, and the Lean monitors judge every implementation history.',
+                  'cycle_calls_bounded (measure and positional), cycle_never_raises, init_flag_exact, cleanup_exactly_once, '
+                  'cleanup_not_interrupted, stop_makes_inactive, last_start_wins are fully proved from one coupling invariant '
+                  'between the machine and the observer; busy_until_finished is partial (each status assignment of '
+                  'start_machine/stop_machine/state_transition preserves the busy invariant; the fold over histories is stated '
+                  'and monitored) and refuted for a pre-empted start_machine.  The model is tied to lib/statemachine.py and '
+                  'states.py by an exhaustive + random correspondence run on the real classes, and the Lean monitors judge '
+                  'every implementation history.',
     'level_note': 'Trusted: Lean kernel + axioms propext/Classical.choice/Quot.sound; requests of another thread are atomic '
                   'with respect to the mixin (start_machine/stop_machine as a whole) in the theorems; their preemption is '
                   'only searched (judge-only).',
@@ -33,7 +36,6 @@ META = {
         'attribute names given to start() do not collide with class attributes of StateMachine (otherwise _update_attributes raises inside cycle)',
         'the transition hook does not raise (the hook of HasStates does not, for status codes valid for the module)',
         'final_status is the last action of a function that calls it',
-        'state functions carry a __name__ (functools.partial objects as states make _cleanup raise)',
     ],
     'modelled_not_verified': [
         'time (now, delta), log texts, fast-poll switching, poller triggering',
